@@ -453,6 +453,12 @@ def run(facts, rep, tier, ctx):
                 k += 1
                 A.ob("R05.6", o["fn"], o["key"].split("|")[2], o["ok"], o["detail"], o["loc"])
         rep.floor("async-world observer obligations", k, 40)
+    # R05.5s an entry exists only below a directory: file-over-directory shadowing in the overlay's resolver (F36; C09 R09.12)
+    from . import c09 as _c09s5
+    from .c10 import _Prefixed as _Pf5s
+    for w5s in (ws, World(facts, True)):
+        if w5s.present():
+            _c09s5.shadowing_rules(facts, rep if not w5s.asyncw else _Pf5s(rep, "A"), w5s, "R05.5s/R09.12")
     # R05.3e the walk reports a directory it cannot list: an Err of read_dir that next() swallows (by kind, "skip what cannot be read")
     # drops an existing directory and its whole subtree from the walk, which then ends as if complete (C20's consumer rows of next)
     from . import c20 as _c20w
